@@ -187,6 +187,49 @@ func (e *Env) RImportRoles() {
 		}
 		return true
 	})
+	// the name written into an import spec is the alias that was CHOSEN for its path (aliases[…],
+	// filled from findAlias together with the name used in the code), not the alias that was
+	// requested (the source's, the Alias map's): after a clash the two differ
+	ast.Inspect(fd.Body, func(nd ast.Node) bool {
+		as, ok := nd.(*ast.AssignStmt)
+		if !ok || len(as.Lhs) != 1 || len(as.Rhs) != 1 {
+			return true
+		}
+		se, ok := ast.Unparen(as.Lhs[0]).(*ast.SelectorExpr)
+		if !ok || se.Sel.Name != "Name" {
+			return true
+		}
+		var nameExpr ast.Expr
+		if _, tn := namedOf(info.TypeOf(se.X)); tn == "ImportSpec" {
+			// S.Name = &dst.Ident{Name: X} (or nil)
+			if u, ok := ast.Unparen(as.Rhs[0]).(*ast.UnaryExpr); ok {
+				if lit, ok := ast.Unparen(u.X).(*ast.CompositeLit); ok {
+					for _, el := range lit.Elts {
+						if kv, ok := el.(*ast.KeyValueExpr); ok && types.ExprString(kv.Key) == "Name" {
+							nameExpr = kv.Value
+						}
+					}
+				}
+			}
+		} else if inner, ok := ast.Unparen(se.X).(*ast.SelectorExpr); ok && inner.Sel.Name == "Name" {
+			if _, tn := namedOf(info.TypeOf(inner.X)); tn == "ImportSpec" {
+				nameExpr = as.Rhs[0] // S.Name.Name = X
+			}
+		}
+		if nameExpr == nil {
+			return true
+		}
+		txt := c.ExprStr(nameExpr)
+		if id, ok := ast.Unparen(nameExpr).(*ast.Ident); ok {
+			// a local that holds the table entry (`alias := aliases[path]`)
+			if d := singleDef(info, fd, id); d != nil {
+				txt = c.ExprStr(d)
+			}
+		}
+		e.Run.Check("R-ALIAS", "updateImports: the name written into an import spec is the alias chosen for its path", pos(as), strings.Contains(txt, "aliases["),
+			"the spec is named `"+txt+"`, which is not taken from aliases[…] (the alias findAlias chose, stored together with the name the code is printed with): when two imports want the same name the code says foo1.X and the spec still says foo")
+		return true
+	})
 	// an existing spec whose alias differs from the chosen one is renamed: among the stores that
 	// give a spec of a declaration its name from aliases[…] one is reachable for a spec that has
 	// a name already
